@@ -240,6 +240,8 @@ type Obs struct {
 	Msg string `json:"msg,omitempty"`
 	// Trunc: the output cap was hit; only the prefix is known.
 	Trunc bool `json:"trunc,omitempty"`
+	// Panic: the engine crashed with a Go panic at this point.
+	Panic bool `json:"panic,omitempty"`
 }
 
 func (o Obs) String() string {
